@@ -793,6 +793,42 @@ func (c *Ctx) classifyFieldName(f *ssa.Function, v ssa.Value, ap *ssa.Call) (str
 	if _, ok := core.ConstString(v); ok {
 		return "constant", true
 	}
+	isCounterArg := func(a ssa.Value) (string, bool) {
+		a = upEnv(a)
+		if cv, ok := a.(*ssa.Convert); ok {
+			a = upEnv(cv.X)
+		}
+		if ph, ok := a.(*ssa.Phi); ok {
+			for _, e := range ph.Edges {
+				if b, ok := e.(*ssa.BinOp); ok && b.Op == token.ADD && (b.X == ssa.Value(ph)) {
+					return "indexed by a strictly increasing counter", true
+				}
+			}
+		}
+		if b, ok := a.(*ssa.BinOp); ok && b.Op == token.ADD {
+			if _, ok := b.X.(*ssa.Phi); ok {
+				return "indexed by a strictly increasing counter", true
+			}
+		}
+		if lc, ok := a.(*ssa.Call); ok && core.CalleeName(lc.Common()) == "builtin.len" && lc.Common().Args[0] == ap.Common().Args[0] {
+			return "indexed by the growing length of the field list", true
+		}
+		return "", false
+	}
+	// "prefix" + strconv.Itoa(counter): the concatenated form of an index-formatted name
+	if lv := flattenConcat(v); len(lv) == 2 {
+		if _, isK := core.ConstString(lv[0]); isK {
+			if ic, ok := lv[1].(*ssa.Call); ok {
+				switch core.CalleeName(ic.Common()) {
+				case "strconv.Itoa", "strconv.FormatInt", "strconv.FormatUint":
+					if why, ok := isCounterArg(ic.Common().Args[0]); ok {
+						return why, true
+					}
+					return "numeric suffix is not a recognised counter", false
+				}
+			}
+		}
+	}
 	cl, ok := v.(*ssa.Call)
 	if !ok {
 		return "unrecognised expression", false
